@@ -1,4 +1,302 @@
-import Sio.Model.Server
+/-
+  C05 — incoming events: one handler invocation, one matching ACK, to the sender only; binary
+  events are reassembled per transport; with inline handlers the outputs of a history are the
+  concatenation of the per-input outputs (arrival order).
+
+  Statements about `Sio.Server.step` / `run` for every decoder, configuration, registry and
+  script, from every well-formed state (`Server.WF`, an invariant of all reachable states).
+-/
+import Sio.Lemmas.ServerEvent
 namespace Sio.C05
-theorem placeholder_stub : True := trivial
+open Sio Sio.Server Sio.Rooms
+
+variable {dec : Str → Except Err (Packet × Nat)} {cfg : Cfg}
+
+/-- Frame `v` from transport `t` completes an EVENT `(nsp, id, data)` in state `s`: a text EVENT
+    packet, or the last attachment of a BINARY_EVENT (then `data` is the reconstructed payload and
+    the packet leaves the reassembly buffer: `s₀ = dropBin s t`). -/
+inductive CompletesEvent (dec : Str → Except Err (Packet × Nat)) (s : Srv) (t : Eio) (v : J) :
+    Option Str → Option Nat → Option J → Srv → Prop where
+  | text {p : Packet} {n : Nat} : s.binbuf.find? (fun e => e.1 = t) = none →
+      frameDecode dec v = .ok (p, n) → p.type = EVENT → CompletesEvent dec s t v p.nsp p.id p.data s
+  | binary {t' : Eio} {part : Partial} {d : Option J} :
+      s.binbuf.find? (fun e => e.1 = t) = some (t', part) → ¬ part.need ≤ part.got.length →
+      part.need = (part.got ++ [v]).length → reconData part (part.got ++ [v]) = .ok d →
+      part.pkt.type = BINARY_EVENT →
+      CompletesEvent dec s t v part.pkt.nsp part.pkt.id d (dropBin s t)
+
+theorem step_of_completesEvent {s s₀ : Srv} {t : Eio} {v : J} {nsp : Option Str} {id : Option Nat}
+    {data : Option J} (h : CompletesEvent dec s t v nsp id data s₀) :
+    step dec cfg s (.frame t v) = handleEvent cfg s₀ t nsp id data := by
+  rw [step]
+  cases h with
+  | text hf hd ht =>
+    rw [handleFrame_text dec cfg hf, hd]
+    unfold dispatchPacket
+    simp [ht, EVENT, CONNECT, DISCONNECT]
+  | binary hf h1 h2 h3 h4 => rw [handleFrame_last dec cfg hf h1 h2 h3, if_pos h4]
+
+theorem CompletesEvent.state {s s₀ : Srv} {t : Eio} {v : J} {nsp : Option Str} {id : Option Nat}
+    {data : Option J} (h : CompletesEvent dec s t v nsp id data s₀) : s₀ = s ∨ s₀ = dropBin s t := by
+  cases h with
+  | text => exact Or.inl rfl
+  | binary => exact Or.inr rfl
+
+theorem CompletesEvent.wf {s s₀ : Srv} {t : Eio} {v : J} {nsp : Option Str} {id : Option Nat}
+    {data : Option J} (h : CompletesEvent dec s t v nsp id data s₀) (hw : Server.WF s) :
+    Server.WF s₀ ∧ s₀.rooms = s.rooms ∧ s₀.socks = s.socks := by
+  cases h with
+  | text => exact ⟨hw, rfl, rfl⟩
+  | binary => exact ⟨⟨hw.toWF0.filterBin _, hw.pendingNil⟩, rfl, rfl⟩
+
+/-- the handler `resolve` selected, with its arguments -/
+def target : Resolved → Option (Slot × List J)
+  | .fn slot a => some (slot, a)
+  | .clsCall slot a => some (slot, a)
+  | _ => none
+
+/-- the value that is acknowledged: the handler's return value; `None` for a class-based namespace
+    without a method for the event; nothing when nobody is responsible or the handler raised -/
+def returned (script : Script) (nEv : Nat) : Resolved → Option Data
+  | .fn _ _ | .clsCall _ _ => match script.onEvent nEv with | .ret d => some d | .raise => none
+  | .clsNoMethod => some .none
+  | .notHandled => none
+
+/-! ### the demo state: two transports connected to `/`, inline handlers -/
+
+def reg0 : Registry := ⟨fun _ _ => true, fun _ => true, fun _ => false, fun _ _ => false⟩
+def cfg0 : Cfg :=
+  ⟨false, none, false, reg0, ⟨fun _ => .accept, fun _ => .ret (.one (.int 5)), fun _ => .ok⟩⟩
+/-- toy decoder: "c" CONNECT; "e" EVENT id 3 `["ev", 1]`; "h" BINARY_EVENT, one attachment,
+    `["ev", placeholder 0]` -/
+def dec0 : Str → Except Err (Packet × Nat)
+  | ['c'] => .ok (⟨CONNECT, none, none, none⟩, 0)
+  | ['e'] => .ok (⟨EVENT, none, some 3, some (.arr [.str ['e', 'v'], .int 1])⟩, 0)
+  | ['h'] => .ok (⟨BINARY_EVENT, none, none, some (.arr [.str ['e', 'v'], placeholder 0])⟩, 1)
+  | _ => .error .valueError
+def tA : Eio := ['A']
+def tB : Eio := ['B']
+def nsRoot : Ns := ['/']
+def hist0 : List Input :=
+  [.eioConnect tA, .eioConnect tB, .frame tA (.str ['c']), .frame tB (.str ['c'])]
+def demo0 : Srv := (run dec0 cfg0 {} hist0).1
+theorem demo0_wf : Server.WF demo0 := Server.WF.init.run dec0 cfg0 hist0
+
+/-! ### `invoke_once` -/
+
+/-- An EVENT `(nsp, id, ev :: args)` from a transport that is connected to the namespace with
+    session `sid`, inline handlers: the step's outputs contain exactly one `invoke` when `resolve`
+    (K8) selects a handler — that handler, with the arguments `resolve` built, which are
+    `sid :: args` after the catch-all prefix — and none otherwise. -/
+theorem invoke_once {s s₀ : Srv} (h : Server.WF s) {t : Eio} {v : J} {nsp : Option Str}
+    {id : Option Nat} {ev : J} {args : List J} {sid : Sid} {r : Resolved}
+    (hc : CompletesEvent dec s t v nsp id (some (.arr (ev :: args))) s₀)
+    (hs : sidOf s.rooms (nsp.getD ['/']) t = some sid) (hsync : cfg.asyncHandlers = false)
+    (hr : resolve cfg.reg (nsp.getD ['/']) ev (.str sid :: args) = .ok r) :
+    (step dec cfg s (.frame t v)).2.filter Out.isInvoke =
+        (match target r with
+          | some (slot, a) => [.invoke slot a]
+          | none => []) ∧
+      ∀ slot a, target r = some (slot, a) → ∃ pre, a = pre ++ (.str sid :: args) := by
+  obtain ⟨hw0, hr0, _⟩ := hc.wf h
+  rw [step_of_completesEvent hc,
+    handleEvent_connected hw0 cfg id (by rw [hr0]; exact hs) (first := ev) (rest := args) rfl]
+  simp only [hsync, Bool.false_eq_true, if_false]
+  have ha := resolve_args hr
+  constructor
+  · cases r with
+    | fn slot a =>
+      rw [runHandler_handled cfg s₀ _ (Or.inl hr)]
+      dsimp only [target]
+      cases cfg.script.onEvent s₀.nEv <;>
+        simp [List.filter_cons, Out.isInvoke, ackFor_isInvoke]
+    | clsCall slot a =>
+      rw [runHandler_handled cfg s₀ _ (Or.inr hr)]
+      dsimp only [target]
+      cases cfg.script.onEvent s₀.nEv <;>
+        simp [List.filter_cons, Out.isInvoke, ackFor_isInvoke]
+    | clsNoMethod => rw [runHandler_noMethod cfg s₀ _ hr]; exact ackFor_isInvoke ..
+    | notHandled => rw [runHandler_notHandled cfg s₀ _ hr]; rfl
+  · intro slot a ht
+    cases r <;> simp only [target, Option.some.injEq, Prod.mk.injEq, reduceCtorEq] at ht
+    · obtain ⟨rfl, rfl⟩ := ht; exact ha
+    · obtain ⟨rfl, rfl⟩ := ht; exact ha
+
+example : CompletesEvent dec0 demo0 tA (.str ['e']) none (some 3)
+    (some (.arr [.str ['e', 'v'], .int 1])) demo0 :=
+  .text (p := ⟨EVENT, none, some 3, some (.arr [.str ['e', 'v'], .int 1])⟩) (n := 0)
+    (by decide) rfl rfl
+example : sidOf demo0.rooms nsRoot tA = some (sidName 0) := by decide
+example : (step dec0 cfg0 demo0 (.frame tA (.str ['e']))).2 =
+    [.invoke (.fn nsRoot ['e', 'v']) [.str (sidName 0), .int 1],
+     .send tA (mkOut ACK nsRoot (some 3) [.int 5])] := by rfl
+
+/-- An unhashable event name (`TypeError` at the first dictionary test): no invocation, no ACK. -/
+theorem invoke_none_on_error {s s₀ : Srv} (h : Server.WF s) {t : Eio} {v : J} {nsp : Option Str}
+    {id : Option Nat} {ev : J} {args : List J} {sid : Sid} {e : Err}
+    (hc : CompletesEvent dec s t v nsp id (some (.arr (ev :: args))) s₀)
+    (hs : sidOf s.rooms (nsp.getD ['/']) t = some sid) (hsync : cfg.asyncHandlers = false)
+    (hr : resolve cfg.reg (nsp.getD ['/']) ev (.str sid :: args) = .error e) :
+    step dec cfg s (.frame t v) = (s₀, [.raised e]) := by
+  obtain ⟨hw0, hr0, _⟩ := hc.wf h
+  rw [step_of_completesEvent hc,
+    handleEvent_connected hw0 cfg id (by rw [hr0]; exact hs) (first := ev) (rest := args) rfl]
+  simp only [hsync, Bool.false_eq_true, if_false]
+  exact runHandler_error cfg s₀ _ hr
+
+/-- An EVENT on a namespace the transport is not connected to: no output at all, the state is
+    unchanged (a completed binary packet leaves the buffer). -/
+theorem not_connected {s s₀ : Srv} {t : Eio} {v : J} {nsp : Option Str} {id : Option Nat} {ev : J}
+    {args : List J} (hc : CompletesEvent dec s t v nsp id (some (.arr (ev :: args))) s₀)
+    (hs : sidOf s.rooms (nsp.getD ['/']) t = none) :
+    step dec cfg s (.frame t v) = (s₀, []) := by
+  have hr0 : s₀.rooms = s.rooms := by rcases hc.state with rfl | rfl <;> rfl
+  rw [step_of_completesEvent hc]
+  exact handleEvent_not_connected cfg id (by rw [hr0]; exact hs) (first := ev) (rest := args) rfl
+
+example : sidOf demo0.rooms ['/', 'x'] tA = none := by decide
+
+/-! ### `ack_exact` -/
+
+/-- The `send` outputs of that step are exactly one ACK with the event's id, on its namespace, to
+    the sending transport, carrying the packed return value — when the event had an id and a
+    handler (or a class-based namespace) was responsible and returned; nothing otherwise.
+    (`t ∈ s.socks`: engine.io delivers messages of open sockets only.) -/
+theorem ack_exact {s s₀ : Srv} (h : Server.WF s) {t : Eio} {v : J} {nsp : Option Str}
+    {id : Option Nat} {ev : J} {args : List J} {sid : Sid} {r : Resolved}
+    (hc : CompletesEvent dec s t v nsp id (some (.arr (ev :: args))) s₀)
+    (hs : sidOf s.rooms (nsp.getD ['/']) t = some sid) (hsync : cfg.asyncHandlers = false)
+    (ht : t ∈ s.socks)
+    (hr : resolve cfg.reg (nsp.getD ['/']) ev (.str sid :: args) = .ok r) :
+    (step dec cfg s (.frame t v)).2.filter Out.isSend =
+      match id, returned cfg.script s₀.nEv r with
+      | some i, some d => [.send t (mkOut ACK (nsp.getD ['/']) (some i) d.pack)]
+      | _, _ => [] := by
+  obtain ⟨hw0, hr0, hs0⟩ := hc.wf h
+  rw [step_of_completesEvent hc,
+    handleEvent_connected hw0 cfg id (by rw [hr0]; exact hs) (first := ev) (rest := args) rfl]
+  simp only [hsync, Bool.false_eq_true, if_false]
+  have hopen : ∀ (s' : Srv) (p : Packet), s'.socks = s₀.socks → sendTo s' (some t) p = [.send t p] :=
+    fun s' p hq => sendTo_open (by rw [hq, hs0]; exact ht) p
+  cases r with
+  | fn slot a =>
+    rw [runHandler_handled cfg s₀ _ (Or.inl hr)]
+    dsimp only [returned]
+    cases cfg.script.onEvent s₀.nEv <;> cases id <;>
+      simp [List.filter_cons, Out.isSend, ackFor, hopen]
+  | clsCall slot a =>
+    rw [runHandler_handled cfg s₀ _ (Or.inr hr)]
+    dsimp only [returned]
+    cases cfg.script.onEvent s₀.nEv <;> cases id <;>
+      simp [List.filter_cons, Out.isSend, ackFor, hopen]
+  | clsNoMethod =>
+    rw [runHandler_noMethod cfg s₀ _ hr]
+    cases id <;> simp [returned, ackFor, hopen, Out.isSend]
+  | notHandled =>
+    rw [runHandler_notHandled cfg s₀ _ hr]
+    cases id <;> simp [returned]
+
+example : tA ∈ demo0.socks := by decide
+
+/-- Whatever the event and the state: every packet the step sends goes to the sending transport,
+    and every invocation carries the session id that transport has on the namespace. -/
+theorem ack_to_sender_only {s s₀ : Srv} {t : Eio} {v : J} {nsp : Option Str} {id : Option Nat}
+    {data : Option J} (hc : CompletesEvent dec s t v nsp id data s₀) :
+    ∀ o ∈ (step dec cfg s (.frame t v)).2,
+      o.confined t (fun a => ∃ sid, sidOf s.rooms (nsp.getD ['/']) t = some sid ∧ carries sid a) := by
+  have hr0 : s₀.rooms = s.rooms := by rcases hc.state with rfl | rfl <;> rfl
+  rw [step_of_completesEvent hc, ← hr0]
+  exact handleEvent_outs cfg s₀ t nsp id data
+
+/-- the ACK is a BINARY_ACK exactly when the returned data contains bytes -/
+theorem ack_binary_iff (ns : Ns) (i : Nat) (data : List J) :
+    (mkOut ACK ns (some i) data).type = if (J.arr data).isBinary then BINARY_ACK else ACK := by
+  unfold mkOut mkPacket
+  by_cases hb : (J.arr data).isBinary = true <;> simp [hb, ACK, EVENT]
+
+/-! ### `binary_reassembly` -/
+
+/-- A BINARY_EVENT header from `t` followed by its attachments, nothing else from `t` in between
+    (here: contiguous), is the reconstructed event: same final state and outputs as
+    `_handle_event` on the reconstructed payload in the original state. -/
+theorem binary_reassembly {s : Srv} {t : Eio} {hdr : J} {p : Packet} {k : Nat} {d : Option J}
+    (hf : s.binbuf.find? (fun e => e.1 = t) = none) (hd : frameDecode dec hdr = .ok (p, k))
+    (hp : p.type = BINARY_EVENT) (atts : List J) (hk : atts.length = k) (hk0 : 0 < k)
+    (hrec : reconData ⟨p, k, []⟩ atts = .ok d) :
+    run dec cfg s (.frame t hdr :: atts.map (fun a => Input.frame t a)) =
+      handleEvent cfg s t p.nsp p.id d := by
+  -- after the header, `i` attachments stored, `rest` to come
+  have key : ∀ (rest got : List J) (s1 : Srv), got.length + rest.length = k → 0 < rest.length →
+      s1.binbuf.find? (fun e => e.1 = t) = some (t, ⟨p, k, got⟩) →
+      dropBin s1 t = s → reconData ⟨p, k, []⟩ (got ++ rest) = .ok d →
+      run dec cfg s1 (rest.map (fun a => Input.frame t a)) = handleEvent cfg s t p.nsp p.id d := by
+    intro rest
+    induction rest with
+    | nil => intro got s1 _ h0; simp at h0
+    | cons a rest ih =>
+      intro got s1 hlen _ hfind hdrop hrec'
+      rw [List.map_cons, run_cons, step]
+      by_cases hlast : rest = []
+      · subst hlast
+        have h1 : ¬ k ≤ got.length := by simp at hlen; omega
+        have h2 : k = (got ++ [a]).length := by simp at hlen ⊢; omega
+        rw [handleFrame_last dec cfg hfind h1 h2 (d := d) hrec', if_pos hp, hdrop]
+        simp [run_nil]
+      · have hpos : 0 < rest.length := List.length_pos_iff.mpr hlast
+        have h1 : ¬ k ≤ got.length := by simp at hlen; omega
+        have h2 : k ≠ (got ++ [a]).length := by simp at hlen ⊢; omega
+        have hstep : handleFrame dec cfg s1 t a = (storeBin s1 t ⟨p, k, got⟩ a, []) := by
+          have hfc := frameCase dec cfg s1 t a
+          unfold handleFrame
+          rw [hfind]
+          dsimp only
+          rw [if_neg h1, if_neg h2]
+          rfl
+        rw [hstep]
+        simp only [List.nil_append]
+        have := ih (got ++ [a]) (storeBin s1 t ⟨p, k, got⟩ a) (by simp at hlen ⊢; omega) hpos
+          (find_setBin _ _ _ (by rw [hfind]; rfl))
+          (by rw [← hdrop]; simp only [dropBin, storeBin, filter_setBin])
+          (by rw [List.append_assoc]; exact hrec')
+        rw [this]
+  rw [run_cons, step, handleFrame_text dec cfg hf, hd]
+  have hdisp : dispatchPacket cfg s t p k = ({ s with binbuf := s.binbuf ++ [(t, ⟨p, k, []⟩)] }, []) := by
+    unfold dispatchPacket
+    simp [hp, BINARY_EVENT, CONNECT, DISCONNECT, EVENT, ACK]
+  dsimp only
+  rw [hdisp]
+  simp only [List.nil_append]
+  have := key atts [] { s with binbuf := s.binbuf ++ [(t, ⟨p, k, []⟩)] } (by simpa using hk)
+    (by rw [hk]; exact hk0) (find_push hf _)
+    (by simp only [dropBin, filter_push hf]) (by simpa using hrec)
+  rw [this]
+
+example : demo0.binbuf.find? (fun e => e.1 = tA) = none ∧
+    frameDecode dec0 (.str ['h']) =
+      .ok (⟨BINARY_EVENT, none, none, some (.arr [.str ['e', 'v'], placeholder 0])⟩, 1) := by
+  constructor <;> rfl
+example : (run dec0 cfg0 demo0 [.frame tA (.str ['h']), .frame tA (.bin [1, 2])]).2 =
+    [.invoke (.fn nsRoot ['e', 'v']) [.str (sidName 0), .bin [1, 2]]] := by rfl
+
+/-- The reassembly buffer is keyed by transport: a frame from another transport never changes the
+    partially received packet of `t` — so other clients' traffic may interleave freely. -/
+theorem binbuf_keyed {s : Srv} {t t' : Eio} (hne : t' ≠ t) (v : J) :
+    (step dec cfg s (.frame t' v)).1.binbuf.find? (fun e => e.1 = t) =
+      s.binbuf.find? (fun e => e.1 = t) :=
+  binbuf_other hne v
+
+/-! ### `order_inline` -/
+
+/-- The output of a history is the concatenation of the outputs of its inputs, in arrival order;
+    with inline handlers (`async_handlers = False`) each event's invocation and ACK are in the
+    output of its own frame (`invoke_once`, `ack_exact`), hence one client's events are handled
+    in arrival order. -/
+theorem order_inline (s : Srv) (is : List Input) :
+    (run dec cfg s is).2 = (trace dec cfg s is).flatten := run_outs_eq_trace dec cfg s is
+
+theorem order_inline_append (s : Srv) (is js : List Input) :
+    run dec cfg s (is ++ js) =
+      ((run dec cfg (run dec cfg s is).1 js).1,
+        (run dec cfg s is).2 ++ (run dec cfg (run dec cfg s is).1 js).2) := run_append dec cfg s is js
+
 end Sio.C05
